@@ -11,6 +11,9 @@ assert subprocess.run(["git", "-C", "/repo", "status", "--porcelain", "--untrack
 for n in names:
     d = f"{ROOT}/seeded/{n}"
     meta = json.load(open(f"{d}/meta.json"))
+    if meta.get("obsolete") and not sys.argv[1:]:
+        print(f"{n}: skipped (obsolete: neutralised by a later repair)")
+        continue
     ids = [meta["property"]] + meta.get("also", [])
     try:
         subprocess.run(["git", "-C", "/repo", "apply", f"{d}/patch.diff"], check=True)
